@@ -425,9 +425,12 @@ def split_violations(d, pid):
 
 def report_monitor_violations(ctx, d):
     vs = split_violations(d, ctx.pid)
+    unlisted = []
     for v in vs:
-        ctx.violation(v["key"], v["what"], {"input": v.get("input"), "expected": v.get("expected"), "observed": v.get("observed")})
-    return vs
+        if ctx.violation(v["key"], v["what"], {"input": v.get("input"), "expected": v.get("expected"), "observed": v.get("observed")}):
+            unlisted.append(v)
+    # listed known findings are printed by ctx.violation and do not fail the monitor's obligation
+    return unlisted
 
 
 def report_disagreements(ctx, name, failing_cases, model, found_keys):
